@@ -171,6 +171,12 @@ func (c *FCtx) evalCall(st *State, call *ast.CallExpr) []Val {
 	if key == "fmt.Fprint" && con == nil {
 		fail("fmt.Fprint without an assumed contract")
 	}
+	if con == nil && fi != nil && fi.NLoops == 0 && fi.Decl.Body != nil {
+		// a loop-free function of the repository without a contract (for instance a helper extracted by a refactoring)
+		// is executed by its body: nothing is assumed about it
+		c.note("uncontracted loop-free callee executed by its body: " + key)
+		return c.inlineCall(st, fi, &Contract{Key: key, Loops: map[int]*LoopSpec{}, Inline: true}, args, call)
+	}
 	if con == nil {
 		if fi != nil {
 			fail("call to %s which has no contract (add one, or mark it inline)", key)
@@ -208,9 +214,28 @@ func (c *FCtx) deadResults(st *State, sig *types.Signature) []Val {
 	return out
 }
 
-func paramNames(fi *FuncInfo, con *Contract, fn *types.Func) []string {
-	var names []string
+// namesUsable: the contract's `names` table describes the same list of declarations as the current source (same
+// number of parameters, named results and locals), so a contract name that no longer exists can be resolved by position.
+func namesUsable(fi *FuncInfo, con *Contract) bool {
+	return fi != nil && con != nil && len(con.Names) > 0 && len(con.Names) == len(fi.DeclOrder) && con.NamesIn == fi.NSigIn && con.NamesOut == fi.NSigOut
+}
+
+func paramNames(fi *FuncInfo, con *Contract, fn *types.Func) (names []string) {
 	if fi != nil {
+		defer func() {
+			// the names the contract was written with, when parameters have been renamed since
+			if namesUsable(fi, con) && len(names) == fi.NSigIn {
+				ok := true
+				for _, n := range names {
+					if n == "_" || n == "_recv" {
+						ok = false
+					}
+				}
+				if ok {
+					copy(names, con.Names[:con.NamesIn])
+				}
+			}
+		}()
 		if fi.Decl.Recv != nil {
 			for _, f := range fi.Decl.Recv.List {
 				if len(f.Names) == 0 {
@@ -253,6 +278,9 @@ func resultNames(fi *FuncInfo, con *Contract, fn *types.Func) []string {
 	var names []string
 	if con != nil && len(con.Results) > 0 {
 		return con.Results
+	}
+	if namesUsable(fi, con) && con.NamesOut == sig.Results().Len() && con.NamesOut > 0 {
+		return append([]string(nil), con.Names[con.NamesIn:con.NamesIn+con.NamesOut]...)
 	}
 	for i := 0; i < sig.Results().Len(); i++ {
 		n := sig.Results().At(i).Name()
